@@ -20,6 +20,7 @@ import (
 	"verif/internal/c20"
 	"verif/internal/core"
 	"verif/internal/evid"
+	"verif/internal/selftest"
 	"verif/internal/simbuild"
 	"verif/internal/xch"
 )
@@ -87,6 +88,12 @@ func main() {
 		}
 	}
 	switch os.Args[1] {
+	case "selftest":
+		seed := int64(1)
+		if v := os.Getenv("VERIF_SEED"); v != "" {
+			seed, _ = strconv.ParseInt(v, 0, 64)
+		}
+		os.Exit(selftest.Run(seed, c.Jobs))
 	case "instrument":
 		os.Exit(instrument())
 	case "xbuild":
